@@ -14,7 +14,7 @@
      loop_st step ...      the same loop with the state of the path threaded through the propagations;
                            code_step = restore the designed gains, then propagate on the path objects *)
 From Coq Require Import QArith Sorted.
-From Verif Require Import Prelude Model.Verdict Proofs.Verdict.
+From Verif Require Import Prelude Model.Verdict Proofs.Verdict Gen.VerdictGen Proofs.VerdictGen.
 Open Scope Q_scope.
 
 (* ---- the receiver counts every noise contribution exactly once, whatever happened before ---- *)
@@ -267,6 +267,53 @@ Example ex_amplifier_state :
   amp_history 23 21 (shared_events [Some 3; Some (-5)]) = [18; 18] /\
   amp_history 23 21 (loop_events [Some 3; Some (-5)]) = [18; 23].
 Proof. exact Proofs.Verdict.shared_differs_from_loop. Qed.
+
+(* ---- translator tie: what /repo's SOURCE says (Gen/VerdictGen.v, regenerated from the source on every run by
+   harness/pygen_c13.py) is the model these theorems are about ---- *)
+(* compute_path_with_disjunction: `round(snr01nm_with_penalty[argmin], 2) < OSNR + margin` blocks, A->Z then Z->A *)
+Theorem C13_source_fixed_verdict : forall osnr margin fwd rev,
+  g_decide_fixed osnr margin fwd rev = decide_fixed (osnr + margin) (met_round2 fwd) (option_map met_round2 rev) /\
+  g_fixed_blocked_fwd osnr margin fwd = blocked_fixed (osnr + margin) (met_round2 fwd) /\
+  g_fixed_reason_fwd = MODE_NOT_FEASIBLE /\ g_fixed_reason_rev = MODE_NOT_FEASIBLE.
+Proof.
+  intros. split; [apply gen_decide_fixed|]. split; [apply gen_fixed_blocked_fwd | apply gen_fixed_reasons].
+Qed.
+Print Assumptions C13_source_fixed_verdict.
+(* propagate_and_optimize_mode: pairs, min_spacing filter, modes of a propagation (baud, offset, spacing), sort key,
+   STRICT acceptance test, blocking reasons *)
+Theorem C13_source_mode_loop : forall lib sp it margin m worst,
+  g_iters lib sp = iters lib sp /\ g_modes_of lib sp it = modes_of lib sp it /\ g_fits sp m = fits sp m /\
+  g_accept margin m worst = passes_auto (m_osnr m + margin) (met_round2 worst) /\
+  reason_of NoComputedSnr = Some g_reason_nosnr /\ reason_of NoBaudrate = Some g_reason_nobaud /\
+  reason_of (NoFeasibleMode it m) = Some g_reason_nomode.
+Proof.
+  intros. split; [apply gen_iters|]. split; [apply gen_modes_of|]. split; [apply gen_fits|]. split; [apply gen_accept|].
+  destruct gen_reasons as [A [B C]]. split; [exact A|]. split; [exact B | apply C].
+Qed.
+Print Assumptions C13_source_mode_loop.
+Theorem C13_source_eval : forall margin P it m f worst,
+  P it m = Some f -> metric (m_tab m) f = Ok (met_round2 worst) ->
+  eval1 margin P it m = if g_accept margin m worst then Pass else Fail.
+Proof. exact gen_eval1. Qed.
+Print Assumptions C13_source_eval.
+(* Transceiver._calc_penalty: numpy.interp with left = right = inf *)
+Theorem C13_source_calc_penalty : forall x tab, g_calc_penalty x tab = interp x tab.
+Proof. exact gen_calc_penalty. Qed.
+Print Assumptions C13_source_calc_penalty.
+(* utils.snr_sum and Transceiver.update_snr: 1/snr' = 1/snr_raw + added * bw / 12.5e9, from the RAW figures *)
+Theorem C13_source_update_snr : forall added c x bw s,
+  g_update1 added c = update1 added c /\ g_snr_sum x bw added ref_bw = snr_sum x bw added /\ g_contribution s = s.
+Proof. intros. split; [apply gen_update1|]. split; [apply gen_snr_sum | apply gen_contribution]. Qed.
+Print Assumptions C13_source_update_snr.
+(* json_io.Transceiver.__init__: (0, 0) inserted when every abscissa is > 0, then sorted *)
+Theorem C13_source_normalise : forall raw, g_normalise raw = normalise raw.
+Proof. exact gen_normalise. Qed.
+Print Assumptions C13_source_normalise.
+Theorem C13_source_blocking_classes :
+  g_blocking_nomode = ["NO_FEASIBLE_MODE"; "MODE_NOT_FEASIBLE"]%string /\
+  g_blocking_nopath = ["NO_PATH"; "NO_PATH_WITH_CONSTRAINT"; "NO_FEASIBLE_BAUDRATE_WITH_SPACING"; "NO_COMPUTED_SNR"]%string.
+Proof. exact gen_blocking_lists. Qed.
+Print Assumptions C13_source_blocking_classes.
 
 (* ---- non-vacuity ---- *)
 Definition ex_rx : receiver := [receive1 32 (1 # 1000) (2 # 1000) (3 # 1000) (4 # 1000); receive1 64 (1 # 500) (1 # 400) (1 # 300) (1 # 200)].
